@@ -147,6 +147,23 @@ theorem C14_patterns_only_matched_tags (env : Env) (extra : List String) (name b
   rfl
 
 
+/-- ... and the tag of a namespaced element is its QUALIFIED name: whether `<ns:name>` takes slots is untouched by patterns that
+    do not match `ns:name` (a pattern matching only the local part has no effect), and the tag itself never depends on them. -/
+theorem C14_patterns_only_matched_namespaced_tags (env : Env) (extra : List String) (as : List String) (nsN nmN : Node) (st : St)
+    (h : extra.contains (identName nsN ++ ":" ++ identName nmN) = false) :
+    isComponent { env with patMatch := env.patMatch ++ extra } (.mk .jsxNsName as [nsN, nmN])
+        = isComponent env (.mk .jsxNsName as [nsN, nmN])
+    ∧ transformTag { env with patMatch := env.patMatch ++ extra } (.mk .jsxNsName as [nsN, nmN]) st
+        = transformTag env (.mk .jsxNsName as [nsN, nmN]) st := by
+  have : ({ env with patMatch := env.patMatch ++ extra } : Env).isPat (identName nsN ++ ":" ++ identName nmN)
+      = env.isPat (identName nsN ++ ":" ++ identName nmN) := by
+    simp only [Env.isPat, List.contains_eq_mem, List.mem_append] at *
+    simp_all
+  constructor
+  · simp only [isComponent, this]
+    rfl
+  · simp [transformTag]
+
 /-- **No option interferes with code that does not use it — module level, for code without JSX**: a module without JSX
     that does not import Vue's `defineComponent` is transformed identically (left unchanged) under ANY two option
     sets (corollary of the identity theorem of C09, proved by induction over the whole traversal). -/
